@@ -271,6 +271,22 @@ def json_case_lean(ck: Check, drv, torch, case, tag, out=None):
     lean_ll = h2f(w[-1]) if rep.startswith("ok") and "ll" in w else None
     if lean_ll is None or not close(lean_ll, impl, TOL_LEAN):
         ck.mismatch("log-likelihood differs from Lean Float model", {"case": case, "impl": impl, "model": lean_ll if lean_ll is not None else rep[:100]})
+    # JC69: also with Lean's own closed-form matrices (nothing from torch but the site rates/proportions)
+    if case["subst"]["kind"] == "JC69" and n <= 10:
+        own = []
+        for row in T:
+            for tt in row:
+                r2 = drv.ask("jc69 " + f2h(tt))
+                own += r2.split()[1:] if r2.startswith("ok") else []
+        if len(own) == len(T) * K * 16:
+            rep3 = drv.ask(req.replace(flat_m, " ".join(own)))
+            w3 = rep3.split()
+            ll3 = h2f(w3[-1]) if rep3.startswith("ok") and "ll" in w3 else None
+            ck.bucket("lean-only-JC69")
+            if ll3 is None or not close(ll3, impl, TOL_ORACLE):
+                ck.mismatch("log-likelihood differs from the all-Lean JC69 run", {"case": case, "impl": impl, "model": ll3})
+        else:
+            ck.mismatch("model rejected jc69 request", {"case": case})
     return impl, model
 
 
@@ -338,7 +354,7 @@ def run(ck: Check):
                 check_oracle(ck, case, impl, model, failures)
         if drv:
             table_correspondence(ck, drv)
-            exact_direct(ck, drv, torch, 400 if thorough else 150)
+            exact_direct(ck, drv, torch, 3000 if thorough else 500)
         # ---- (b)(c)(d) configurations: every substitution model x site model x rooting x tip representation
         substs = ["JC69", "HKY", "GTR", "GeneralSymmetric", "GeneralNonSymmetric", "LG", "WAG", "MG94"]
         sites = ["constant", "invariant", "weibull", "weibull+inv"]
@@ -346,7 +362,9 @@ def run(ck: Check):
         rng.shuffle(grid)
         if not thorough:
             # quick: every nucleotide combination, a rotating subset of the amino-acid / codon ones
-            grid = [g for g in grid if G.SUBST_DT[g[0]] == "nucleotide"] + [g for g in grid if G.SUBST_DT[g[0]] != "nucleotide"][:12]
+            grid = [g for g in grid if G.SUBST_DT[g[0]] == "nucleotide"] + [g for g in grid if G.SUBST_DT[g[0]] != "nucleotide"][:24]
+        else:
+            grid = grid * 4
         for (s, m, r, ts) in grid:
             dt = G.SUBST_DT[s]
             n = rng.choice([3, 4, 5]) if dt == "nucleotide" else (rng.choice([3, 4]) if dt == "aa" else 3)
@@ -356,16 +374,17 @@ def run(ck: Check):
         for n in ([3, 4, 5, 6] if thorough else [3, 4, 5]):
             names = G.make_names(rng, n)
             for topo in G.all_topologies(names):
-                G.shuffle_children(rng, topo)
-                case = G.gen_case(rng, n, topo=topo, nsites=rng.randint(3, 6))
-                run_case(ck, drv, torch, case, failures, f"all-topologies/{n}", lean=(n <= 4 or rng.random() < 0.25))
+                for _rep in range(3 if n <= 4 else 1):
+                    t2 = G.shuffle_children(rng, topo.copy())
+                    case = G.gen_case(rng, n, topo=t2, nsites=rng.randint(3, 6))
+                    run_case(ck, drv, torch, case, failures, f"all-topologies/{n}", lean=(n <= 4 or rng.random() < 0.35))
         # ---- random larger trees: brute force up to 9 taxa, Lean pruning (proved equal) beyond
-        for _ in range(40 if thorough else 10):
+        for _ in range(300 if thorough else 40):
             n = rng.randint(6, 9)
             case = G.gen_case(rng, n, nsites=rng.randint(3, 5))
             run_case(ck, drv, torch, case, failures, "random/6-9")
-        for _ in range(30 if thorough else 8):
-            n = rng.choice([10, 16, 25, 40])
+        for _ in range(150 if thorough else 25):
+            n = rng.choice([10, 16, 25, 40, 64]) if thorough else rng.choice([10, 16, 25, 40])
             case = G.gen_case(rng, n, nsites=rng.randint(4, 12))
             if rng.random() < 0.3:
                 t = G.caterpillar([x.name for x in G.parse_newick(case["newick"]).leaves()])
